@@ -9,11 +9,14 @@ loop, `Dispatcher.handle_request`, codec) of an in-process node (`vf.nodes.Node`
 Sub-checks (named, so that the concurrent part can be added next to them):
   codec    decode_msg(encode_msg_frame(*t)) == t over a triple catalogue; encode_msg_frame(*decode_msg(l)) == l over
            canonical lines
-  lines    every catalogue line as a one-line stream (and followed by a partial line): all oracles, all segmentations
-           with <= 2 cuts, one-byte chunks, timeouts in every gap
-  short    every stream of <= FULLMAX bytes made of 1-3 short lines (optionally + a partial line): ALL segmentations
-  pairs    two-line streams (full catalogue x probe lines, both orders; full x full thorough): all oracles, cuts around
-           both newlines, one-byte chunks, and the isolation oracle (answer alone == answer next to a garbage line)
+  lines    every catalogue line as a one-line stream (and followed by a partial line): all oracles; every single cut,
+           all pairs of cuts (base lines; thorough: every line up to 160 bytes) resp. pairs of the cuts next to both
+           ends / the middle / LF / 1024 boundaries, one-byte chunks, a timeout in the gaps
+  short    every stream of <= FULLMAX bytes (14 quick / 18 thorough) made of 1-3 short lines (optionally + a partial
+           line): ALL 2^(n-1) segmentations, + a timeout in every single gap of every segmentation with <= 2 cuts
+  pairs    two-line streams (catalogue line, probe line) in both orders: all oracles, cuts next to both LFs and pairs
+           of them, one-byte chunks, and the isolation oracle (answer alone == answer next to a garbage line)
+  allpairs (thorough) all ordered pairs of the quick catalogue, cuts next to the first LF
   triples  (thorough) garbage, probe, garbage
 
 Oracle (from the statement; the reference reading of a request line is `Req`, written from the SECoP framing rule
@@ -1241,7 +1244,7 @@ def run(ctx):
         'handler-colliding actions, lines > 1024 and > 4096 bytes), deduplicated by bytes. lines: every catalogue line (and line + '
         'partial line) x all cut sets with <= 2 cuts (all offsets up to 64/160 bytes, else offsets around LF / 1024 boundaries) + '
         'one-byte chunks + a timeout in every gap. short: every stream of <= FULLMAX bytes made of 1-3 short lines (+ partial line) '
-        'x all 2^(n-1) cut sets + timeouts. pairs: (line, probe) and (probe, line) two-line streams (thorough: all ordered pairs) x '
+        'x all 2^(n-1) cut sets + timeouts. pairs: (line, probe) and (probe, line) two-line streams (thorough: + all ordered pairs of the quick catalogue) x '
         'cuts around both LFs + one-byte chunks. triples (thorough): garbage, probe, garbage. codec: action x specifier x data '
         'catalogue. states = distinct byte streams (codec: triples); distinct_nontrivial = streams containing a mutated line or more '
         'than one line; evaluations = executions of the real TCPRequestHandler (one per stream x segmentation) resp. codec round '
